@@ -43,11 +43,17 @@ pub fn gen_case(ch: &mut Chooser) -> Case {
         let hconst = 10 * i as i32;
         let mut imports = vec![ImportSpec::plain("scheme base")];
         let mut deps = vec![];
+        let mut dep_specs = vec![];
         for j in 1..i {
             if ch.chance(1, 2) {
-                imports.push(ImportSpec::plain(&lib_name(j)));
+                dep_specs.push(ImportSpec::plain(&lib_name(j)));
                 deps.push(j);
             }
+        }
+        // the imports of other libraries either in the first declaration or in a later one, after the state exists
+        let late_imports = !deps.is_empty() && ch.chance(1, 2);
+        if !late_imports {
+            imports.extend(dep_specs.clone());
         }
         let renamed = ch.chance(1, 2);
         // internal names either generic (exported with rename) or already unique (exported directly)
@@ -74,7 +80,21 @@ pub fn gen_case(ch: &mut Chooser) -> Case {
             d("shared-name", sym(&format!("lib{}", i))),
             dp(&gets_i, &[], vec![var("shared-name")]),
         ];
-        let mut exports = vec![(next_i.clone(), next_e), (peek_i.clone(), peek_e), (useh_i, useh_e), (leak_i, leak_e), (gets_i, gets_e)];
+        // a syntax definition private to the library, of a name the importer may use for a procedure of its own
+        if ch.chance(1, 3) {
+            body.push(Form::Raw("(define-syntax twice (syntax-rules () ((twice e) (+ e e))))".into()));
+            if !labels.contains(&"library-private-macro") {
+                labels.push("library-private-macro");
+            }
+        }
+        if late_imports {
+            body.push(Form::Import(dep_specs.clone()));
+            labels.push("import-declaration-after-body-part");
+        }
+        // defined after the (possibly late) import declaration, reading the state defined before it
+        let (peek2_i, peek2_e) = nm("peek-again");
+        body.push(dp(&peek2_i, &[], vec![var("count")]));
+        let mut exports = vec![(next_i.clone(), next_e), (peek_i.clone(), peek_e), (useh_i, useh_e), (leak_i, leak_e), (gets_i, gets_e), (peek2_i, peek2_e)];
         // one binding published under two external names (adjacent or separated in the export list)
         match ch.below(4) {
             0 => {
@@ -157,7 +177,9 @@ pub fn gen_case(ch: &mut Chooser) -> Case {
             }
             1 => {
                 // names colliding with library internals
-                let f = match ch.below(5) {
+                let f = match ch.below(7) {
+                    5 => dp("twice", &["x"], vec![app("list", vec![sym("importer-twice"), var("x")])]),
+                    6 => Form::Expr(app("twice", vec![Expr::Int(3)])),
                     0 => dp("helper", &["x"], vec![sym("importer-helper")]),
                     1 => d("count", Expr::Int(1000)),
                     2 => d("shared-name", sym("importer")),
@@ -256,7 +278,7 @@ pub fn judge(c: &Case) -> Report {
         rep.label(*l);
     }
     rep.label(if c.as_files { "files" } else { "registered" });
-    rep.nontrivial = c.labels.iter().any(|l| matches!(*l, "collision-with-internal" | "redefine-imported" | "state-through-two-paths" | "two-import-sets-of-one-library" | "failed-import-in-history" | "binding-exported-twice"));
+    rep.nontrivial = c.labels.iter().any(|l| matches!(*l, "collision-with-internal" | "redefine-imported" | "state-through-two-paths" | "two-import-sets-of-one-library" | "failed-import-in-history" | "binding-exported-twice" | "import-declaration-after-body-part"));
     let obs = run_case(c);
     rep.note = obs_text(&obs);
     match compare_machine(&c.program, &obs, model_machine(c, false)) {
@@ -280,12 +302,13 @@ pub fn run(ctx: &Ctx) {
          directory) with exports with and without rename, an unexported helper, internal state (define + set!), a procedure \
          referring to an importer-only name, imports of each other (acyclic); an importing program (optionally importing \
          one library twice, the second time prefixed; the import sets in one declaration or one declaration each, \
-         optionally with a failing declaration in between; one binding exported under two external names) that calls exported procedures, defines names colliding with library \
+         optionally with a failing declaration in between; one binding exported under two external names; a syntax definition private to a library whose keyword the \
+         importer uses for a procedure of its own; an import declaration placed after the part of the body that creates the state) that calls exported procedures, defines names colliding with library \
          internals, redefines imported names, refers to unexported names, and observes library state through several \
          paths (directly, through the prefixed import, through another library). Oracle: reference module system (one \
          instance per library per program, library environment = its imports + its definitions). Non-trivial = a name \
          collision / redefinition is exercised or state is observed through two paths.",
     );
-    let cases = ctx.tier.pick(4_000, 25_000);
+    let cases = ctx.tier.pick(10_000, 40_000);
     ctx.random("pairs", cases, 200, |ch| judge(&gen_case(ch)));
 }
